@@ -778,6 +778,7 @@ var MergeFunc = function.New(&function.Spec{
 		first := cty.NilType
 		matching := true
 		attrsKnown := true
+		allNull := true
 		for i, arg := range args {
 			ty := arg.Type()
 			// any dynamic args mean we can't compute a type
@@ -791,6 +792,9 @@ var MergeFunc = function.New(&function.Spec{
 			}
 			// marks are attached to values, so ignore while determining type
 			arg, _ = arg.Unmark()
+			if !arg.IsNull() {
+				allNull = false
+			}
 
 			switch {
 			case ty.IsObjectType() && !arg.IsNull():
@@ -827,6 +831,12 @@ var MergeFunc = function.New(&function.Spec{
 
 		// the types all match, so use the first argument type
 		if matching {
+			if allNull && first.IsObjectType() {
+				// Null arguments contribute no attributes, so when every
+				// argument is null the result is the empty object rather
+				// than an object of the (shared) argument type.
+				return cty.EmptyObject, nil
+			}
 			return first, nil
 		}
 
